@@ -62,7 +62,7 @@ func runC02(r *mon.Run) {
 			// (forcing a limb of the value itself does not give this: limb 2 and 3
 			// of (n-1)/2 are all ones / 0x7fff.., so a forced limb carries)
 			j := uint(rng.Intn(4))
-			c := gen.Pick(rng, big.NewInt(1), new(big.Int).SetUint64(^uint64(0)), new(big.Int).SetUint64(rng.U64()|1), new(big.Int).SetUint64(1<<63))
+			c := gen.Pick(rng, big.NewInt(1), new(big.Int).SetUint64(^uint64(0)), new(big.Int).SetUint64(rng.U64()|1), new(big.Int).SetUint64(1<<63), new(big.Int).SetUint64(rng.HalfWord()), new(big.Int).SetUint64(rng.HalfWord()))
 			if j == 3 {
 				c = new(big.Int).Rsh(c, 2) // keep halfN + c*2^192 below n
 				if c.Sign() == 0 {
